@@ -8,8 +8,8 @@ one() {
   rsync -a --exclude .git /repo/ $t/repo/
   mkdir -p $t/verif/bin $t/verif/evidence; cp /verif/known_findings.json $t/verif/
   (cd $t/repo && git apply $p 2>/dev/null) || { echo "$p APPLYFAIL"; rm -rf $t; return; }
-  r=$(NFS_REPO=$t/repo NFS_VERIF=$t/verif NFS_NO_SELFTEST=1 /verif/bin/nfsverif check $CHECKS 2>&1 | grep -aE "^(VIOLATED|UNDECIDED|C[0-9]+ tier)" | awk '/^(VIOLATED|UNDECIDED)/{acc=acc" "$2"/"$3";"} /^C[0-9]+ tier/{ if (acc!="") printf "\n    %s:%s", $1, acc; acc=""}' | sed 's/rule=//g; s/construct=//g' | cut -c1-400)
+  r=$(NFS_REPO=$t/repo NFS_VERIF=$t/verif NFS_NO_SELFTEST=1 ${NFS_BIN:-/verif/bin/nfsverif} check $CHECKS 2>&1 | grep -aE "^(VIOLATED|UNDECIDED|C[0-9]+ tier)" | awk '/^(VIOLATED|UNDECIDED)/{acc=acc" "$2"/"$3";"} /^C[0-9]+ tier/{ if (acc!="") printf "\n    %s:%s", $1, acc; acc=""}' | sed 's/rule=//g; s/construct=//g' | cut -c1-400)
   echo "$p =>$r"; rm -rf $t
 }
-export -f one; export CHECKS
+export -f one; export CHECKS NFS_BIN
 printf '%s\n' "$@" | xargs -P $J -I{} bash -c 'one {}'
